@@ -1,0 +1,125 @@
+//go:build verif
+
+// C15 (codecs round-trip) harnesses for embedded/store. verifAssume / verifAssert live in zz_verif_contracts.go.
+// The functional postconditions of (*TxHeader).ReadFrom used here are the `c15_*` clauses of its block in zz_verif_contracts.go.
+package store
+
+import (
+	"bytes"
+	"encoding/binary"
+)
+
+// --- con-c15 begin
+
+// the first 32 bytes of b (len(b) >= 32) as an array value (spec function: loop-free, quantifier-free comparison of digests)
+func spec_arr32(b []byte) [32]byte {
+	return *(*[32]byte)(b)
+}
+
+// ASSUMED (not verifiable by the engine: iteration over the attribute map and bytes.Buffer are not modelled): the serialized
+// tx metadata is at most maxTxMetadataLen bytes (1+8 for truncatedUpto, 1+2+256 for extra: WithExtra and deserialize
+// enforce len(extra) <= maxExtraLen) and serializing writes no caller-visible memory.
+//@ func (*TxMetadata).Bytes
+//@   ensures c15_len: len(r0) <= maxTxMetadataLen
+//@   assigns nothing
+
+// (*TxHeader).Bytes: byte layout of the two header versions when there is no metadata (the metadata record goes through
+// TxMetadata.Bytes: a map iteration plus bytes.Buffer, not modelled).
+//@ func (*TxHeader).Bytes
+//@   ensures c15_v0: hdr.Version == 0 && hdr.Metadata == nil ==> r1 == nil && len(r0) == 124 && be64(r0[0:]) == hdr.ID && spec_arr32(r0[8:]) == hdr.PrevAlh
+//@     && be64(r0[40:]) == uint64(hdr.Ts) && be16(r0[48:]) == 0 && be16(r0[50:]) == uint16(hdr.NEntries) && spec_arr32(r0[52:]) == hdr.Eh
+//@     && be64(r0[84:]) == hdr.BlTxID && spec_arr32(r0[92:]) == hdr.BlRoot
+//@   ensures c15_v1: hdr.Version == 1 && hdr.Metadata == nil ==> r1 == nil && len(r0) == 128 && be64(r0[0:]) == hdr.ID && spec_arr32(r0[8:]) == hdr.PrevAlh
+//@     && be64(r0[40:]) == uint64(hdr.Ts) && be16(r0[48:]) == 1 && be16(r0[50:]) == 0 && be32(r0[52:]) == uint32(hdr.NEntries) && spec_arr32(r0[56:]) == hdr.Eh
+//@     && be64(r0[88:]) == hdr.BlTxID && spec_arr32(r0[96:]) == hdr.BlRoot
+//@   ensures c15_fresh: r1 == nil ==> !sameobj(r0, hdr)
+//@   assigns nothing
+
+// value-log offsets: the vLog id travels in bits 56..62, the offset in bits 0..54
+func verif_offset_roundtrip(o int64, id byte) {
+	verifAssume(0 <= o && o < 1<<55 && id <= 127)
+	id2, o2 := decodeOffset(encodeOffset(o, id))
+	verifAssert("id", id2 == id)
+	verifAssert("offset", o2 == o)
+}
+
+// TxHeader version 0 (no metadata record, 16-bit entry count)
+func verif_txheader_v0_roundtrip(h *TxHeader) {
+	verifAssume(h != nil)
+	verifAssume(h.Version == 0 && h.Metadata == nil)
+	verifAssume(h.ID >= 1 && h.BlTxID < h.ID && 1 <= h.NEntries && h.NEntries <= 65535)
+	bs, err := h.Bytes()
+	verifAssert("bytes_ok", err == nil && len(bs) == 124)
+	h2 := &TxHeader{}
+	err = h2.ReadFrom(bs)
+	verifAssert("read_ok", err == nil)
+	verifAssert("ID", h2.ID == h.ID)
+	verifAssert("PrevAlh", h2.PrevAlh == h.PrevAlh)
+	verifAssert("Ts", h2.Ts == h.Ts)
+	verifAssert("Version", h2.Version == h.Version)
+	verifAssert("NEntries", h2.NEntries == h.NEntries)
+	verifAssert("Eh", h2.Eh == h.Eh)
+	verifAssert("BlTxID", h2.BlTxID == h.BlTxID)
+	verifAssert("BlRoot", h2.BlRoot == h.BlRoot)
+	verifAssert("Metadata", h2.Metadata == nil)
+}
+
+// TxHeader version 1 with nil metadata (empty metadata record, 32-bit entry count)
+func verif_txheader_v1_roundtrip(h *TxHeader) {
+	verifAssume(h != nil)
+	verifAssume(h.Version == 1 && h.Metadata == nil)
+	verifAssume(h.ID >= 1 && h.BlTxID < h.ID && 1 <= h.NEntries && h.NEntries <= 0xFFFFFFFF)
+	bs, err := h.Bytes()
+	verifAssert("bytes_ok", err == nil && len(bs) == 128)
+	h2 := &TxHeader{}
+	err = h2.ReadFrom(bs)
+	verifAssert("read_ok", err == nil)
+	verifAssert("ID", h2.ID == h.ID)
+	verifAssert("PrevAlh", h2.PrevAlh == h.PrevAlh)
+	verifAssert("Ts", h2.Ts == h.Ts)
+	verifAssert("Version", h2.Version == h.Version)
+	verifAssert("NEntries", h2.NEntries == h.NEntries)
+	verifAssert("Eh", h2.Eh == h.Eh)
+	verifAssert("BlTxID", h2.BlTxID == h.BlTxID)
+	verifAssert("BlRoot", h2.BlRoot == h.BlRoot)
+	verifAssert("Metadata", h2.Metadata == nil)
+}
+
+// tx metadata attribute: truncated-up-to tx id
+func verif_truncatedAttr_roundtrip(a *truncatedUptoTxAttribute) {
+	verifAssume(a != nil)
+	bs := a.serialize()
+	verifAssert("len", len(bs) == 8)
+	a2 := &truncatedUptoTxAttribute{}
+	n, err := a2.deserialize(bs)
+	verifAssert("ok", err == nil && n == 8)
+	verifAssert("txID", a2.txID == a.txID)
+}
+
+// tx metadata attribute: extra payload of at most maxExtraLen bytes (WithExtra enforces the bound)
+func verif_extraAttr_roundtrip(extra []byte) {
+	verifAssume(len(extra) <= maxExtraLen)
+	a := &extraAttribute{extra: extra}
+	bs := a.serialize()
+	verifAssert("len", len(bs) == 2+len(extra))
+	a2 := &extraAttribute{}
+	n, err := a2.deserialize(bs)
+	verifAssert("ok", err == nil && n == 2+len(extra))
+	verifAssert("extra_len", len(a2.extra) == len(extra))
+	verifAssert("extra", bytes.Equal(a2.extra, extra))
+}
+
+// kv metadata attribute: expiration time, stored as whole seconds (sub-second precision is dropped by design);
+// the decoder builds time.Unix(secs, 0) (library, not modelled): the layout of the encoder is what is stated.
+func verif_expiresAtAttr_layout(a *expiresAtAttribute) {
+	verifAssume(a != nil)
+	secs := a.expiresAt.Unix()
+	bs := a.serialize()
+	verifAssert("len", len(bs) == 8)
+	verifAssert("secs", int64(binary.BigEndian.Uint64(bs)) == secs)
+	a2 := &expiresAtAttribute{}
+	n, err := a2.deserialize(bs)
+	verifAssert("ok", err == nil && n == 8)
+}
+
+// --- con-c15 end
